@@ -55,6 +55,8 @@ structure St where
   scalars : List (String × String) := []
   /-- where each edge points: (edge, forest, child) from the last `root` record -/
   edgeRoots : List (String × String × Child Val) := []
+  /-- name of the harness family that produced the transcript (from the `family` record) -/
+  family : String := ""
   deriving Inhabited
 
 def St.diff (s : St) (ln : Nat) (kind detail : String) : St :=
